@@ -272,6 +272,42 @@ def run(rep, ctx):
     rep.sample({'a_text': pairs[5][0], 'b_text': pairs[5][1]})
     rep.sample({'a_text': pairs[-5][0], 'b_text': pairs[-5][1]})
 
+    # ---- long link lists (beyond any plausible size threshold; the matcher's own junk heuristic starts at 200 elements and is outside
+    # the model, so these go through the observer only): repeated targets under several texts, repeated texts over several targets
+    def long_page(n, variant):
+        items = []
+        for i in range(n):
+            items.append('<li><a href="/doc/%d">Document %d</a></li>' % (i, i))
+            if i % 9 == 0:
+                items.append('<li><a href="/doc/%d">%s %d</a></li>' % (i, ['PDF version', 'Download', 'Full text'][variant % 3], i))
+            if i % 14 == 0:
+                items.append('<li><a href="/more/%d">Read more</a></li>' % i)
+        return items
+    big = []
+    for n in ((150, 230) if tier == 'quick' else (150, 199, 205, 230, 400)):
+        base = long_page(n, 0)
+        same_other_order = list(base)
+        rng.shuffle(same_other_order)
+        retitled = long_page(n, 1)
+        grown = base[: n // 2] + ['<li><a href="/doc/%d">Summary of %d</a></li>' % (n // 2, n // 2), '<li><a href="/new">New item</a></li>'] + base[n // 2:]
+        shrunk = [x for i, x in enumerate(base) if i % 17 != 3]
+        wrap = lambda items: '<html><body><ul>%s</ul></body></html>' % ''.join(items)  # noqa
+        big += [(wrap(base), wrap(base)), (wrap(base), wrap(same_other_order)), (wrap(base), wrap(retitled)), (wrap(base), wrap(grown)),
+                (wrap(grown), wrap(base)), (wrap(base), wrap(shrunk)), (wrap(retitled), wrap(grown))]
+    n_big = 0
+    for a, b in big:
+        rep.count(('big', a, b), a != b)
+        try:
+            fails = observer(a, b, hl.links_diff_json(a, b))
+        except Exception as e:  # noqa
+            fails = ['links_diff_json raised %r' % e]
+        if fails:
+            n_big += 1
+            if n_big <= 2:
+                rep.violation('accounting-long-%d' % n_big, {'what': fails[:4], 'a_text': a[:3000], 'b_text': b[:3000], 'links_in_a': a.count('<a '), 'links_in_b': b.count('<a '),
+                                                            'call': 'links_diff_json(a_text, b_text)'})
+    rep.obligation('observer: exactly-once accounting on %d pairs of pages with 150 to 450 links' % len(big), n_big == 0)
+
     # ---- fine seam: _assemble_diff with arbitrary valid opcodes (a superset of what difflib returns)
     m2 = 1500 if tier == 'quick' else 20000
     cases = []
